@@ -115,8 +115,13 @@ func (u *Unit) execFor(s *ast.ForStmt, st *State) []Outcome {
 	ls, n := u.loopSpec(s)
 	// automatic invariant for the classic counted loop "i := c; i < e; i++" (i not assigned in the body)
 	autoVar, autoLo := u.countedLoop(s, st)
-	bind := map[string]Val{}
+	// ghost iteration counter `idx` (number of completed iterations), as for range loops: 0 at entry, arbitrary
+	// >= 0 at the loop head, idx+1 after the body
+	bind := map[string]Val{"idx": {T: "0", S: "Int", GT: types.Typ[types.Int]}}
 	u.checkInvariants(st, ls, n, "init", bind, s)
+	gidx := Val{T: u.reg.fresh("idx", "Int"), S: "Int", GT: types.Typ[types.Int]}
+	st.assume("(<= 0 " + gidx.T + ")")
+	bind = map[string]Val{"idx": gidx}
 	vars, keys := u.modified(s.Body, s.Post, s.Cond)
 	u.havocVars(st, vars)
 	for k := range keys {
@@ -162,7 +167,7 @@ func (u *Unit) execFor(s *ast.ForStmt, st *State) []Outcome {
 				cs = po[0].st
 			}
 		}
-		u.checkInvariants(cs, ls, n, "keep", bind, s)
+		u.checkInvariants(cs, ls, n, "keep", map[string]Val{"idx": {T: "(+ " + gidx.T + " 1)", S: "Int", GT: types.Typ[types.Int]}}, s)
 		if variant0 != "" {
 			v1 := u.evalClauseInt(ls.Decreases, cs, u.localBindings(ls.Decreases, cs, bind))
 			u.oblige(cs, fmt.Sprintf("loop#%d#variant", n), "variant", and("(>= "+variant0+" 0)", "(< "+v1+" "+variant0+")"), u.clauseProps(ls.Decreases), ls.Decreases, "loop variant decreases and is bounded: "+ls.Decreases.Text, s)
